@@ -28,7 +28,7 @@ ASSUMPTIONS = [
     "holds only on the inputs driven; nothing is claimed for inputs not generated",
 ]
 REQUIRED = {"all": ["len_lt5", "len_eq5", "len_eq6", "net_negative", "net_zero", "net_positive", "uncharged",
-                    "random_long", "longer_than_1000", "shuffled_objects", "salted_objects", "kappa_before_delta", "all_compositions_of_lengths_12_and_up"]}
+                    "random_long", "longer_than_1000", "shuffled_objects", "salted_objects", "kappa_before_delta", "all_compositions_of_lengths_12_and_up", "handles_pointed_at_another_backend_object"]}
 LMAX = {"quick": 11, "thorough": 13}
 NRANDOM = {"quick": 1500, "thorough": 20000}
 NLONG = {"quick": 6, "thorough": 40}
@@ -136,6 +136,17 @@ def judge(case, rep, S):
                  sig={"L": L, "p": p, "n": n})
     if L < 5 and got != 0:
         rep.viol("short_sequence_nonzero", "length %d < 5 must give 0, got %r for %s" % (L, got, seq))
+    if case["k"] == "seq" and 5 <= L <= 150 and rep.evaluations % 7 == 0:
+        # the public SeqObj attribute of an already queried handle is pointed at another backend object (the library's own
+        # get_permutant() builds its result that way): the handle then answers for that object
+        other = gen.permute(gen.sub_rng(0, "repoint", seq), seq)
+        obj.SeqObj = S["Sequence"](other)
+        rgot = obj.get_delta()
+        rwant = M.delta_exact(M.pattern(other))
+        rep.cnt("handles_pointed_at_another_backend_object")
+        if obj.get_sequence() != other or not M.close(float(rgot), float(rwant)):
+            rep.viol("delta_value_wrapped_backend_object", "a handle that had answered for %s was given SeqObj = Sequence(%s): get_sequence %s, get_delta %r; the definition gives %r" % (
+                seq, other, obj.get_sequence(), rgot, float(rwant)), sig={"repointed": True})
     if case["k"] == "seq" and L <= 150 and rep.evaluations % 3 == 0:
         # backend object built from lower-/mixed-case text (the backend upper-cases it) behind a front-end handle
         rngc = gen.sub_rng(0, "case", seq)
